@@ -1,6 +1,16 @@
 // vcheck: pure-Go driver of the runtime monitors (built with -tags verif against /repo's working tree).
 package main
 
-import "verifharness/fw"
+import (
+	"os"
 
-func main() { fw.Main() }
+	"verifharness/fw"
+)
+
+func main() {
+	if len(os.Args) > 1 && os.Args[1] == "c07-hash" {
+		c07HashPass(os.Args[2:])
+		return
+	}
+	fw.Main()
+}
